@@ -436,6 +436,9 @@ func (s *c04State) op(line string) (int, string) {
 }
 
 func (s *c04State) exec(w []string) string {
+	if w[0] == "mergewit" {
+		return c04MergeWit(w[1:])
+	}
 	if w[0] == "sheet" {
 		d, ok := c04ParseDesc(w[1:])
 		if !ok {
@@ -1694,7 +1697,7 @@ func runC04(r *Run, rng *Rng, replay string) {
 	// coverage of the getter list
 	r.Notes = append(r.Notes, fmt.Sprintf("read batch draws from %d exported read functions", len(c04Covered)))
 	// 0. witnesses (deterministic)
-	for _, w := range []string{"raw-rewrite", "materialise", "search-panic", "basecolor", "overlap-merge", "condstyle-write", "sst-created", "rows-limit"} {
+	for _, w := range []string{"raw-rewrite", "materialise", "search-panic", "basecolor", "condstyle-write", "sst-created", "rows-limit"} {
 		c04Witness(r, w)
 	}
 	for _, k := range []string{"rless-mixed", "missing-r-search"} {
@@ -1723,6 +1726,12 @@ func runC04(r *Run, rng *Rng, replay string) {
 		d := c04GenDesc(sub, i%10 < 7)
 		c04XMLCase(r, sub, d, "generated")
 	}
+	// 2b. GetMergeCells as a state transformer (merge list model shared with C03)
+	nm := 150
+	if thorough {
+		nm = 3000
+	}
+	c04MergeCases(r, NewRng(c04Sub(r.Seed, "merge", 0)), nm)
 	// 3. malformed op lines (driver and harness must both answer bad-op)
 	s := &c04State{r: r}
 	for _, l := range []string{"sheet ROW 1 0 C 1 1 0 61", "get 0 1", "get 1 0", "get 16385 1", "get 1 1048577", "style 16385 1", "style 1 1048577", "style 0 0", "vis 0", "vis 1048577", "rows"} {
@@ -1793,6 +1802,14 @@ func c04Replay(r *Run, path string) {
 			case "api", "xmlbatch":
 				sub, _ := strconv.ParseUint(w[2], 10, 64)
 				c04BatchCase(r, w[1], sub)
+			}
+			continue
+		}
+		if w[0] == "mergewit" {
+			ln, res := s.op(line)
+			var b, k, a int
+			if _, err := fmt.Sscanf(res, "ok %d %d %d", &b, &k, &a); err == nil && b != a {
+				r.Fail("purity:obs:GetMergeCells:overlapping-merges", "GetCellValue answers differently after GetMergeCells: "+line+" => "+res, ln, line)
 			}
 			continue
 		}
@@ -1899,4 +1916,93 @@ func c04NoSST(xs []string) []string {
 		}
 	}
 	return out
+}
+
+// mergewit c r  c1 r1 c2 r2 ...: on a new file MergeCell every range, set (c,r) (outside every
+// range) to "v", then GetCellValue(c,r), GetMergeCells, GetCellValue(c,r): "ok <is v> <ranges> <is v>"
+func c04MergeWit(w []string) string {
+	var ns []int
+	for _, x := range w {
+		n, err := strconv.Atoi(x)
+		if err != nil || n < 1 || n > 1000 {
+			return "bad-op"
+		}
+		ns = append(ns, n)
+	}
+	if len(ns) < 2 || (len(ns)-2)%4 != 0 {
+		return "bad-op"
+	}
+	f := xl.NewFile()
+	defer f.Close()
+	for i := 2; i+3 < len(ns); i += 4 {
+		if err := f.MergeCell("Sheet1", c04Name(ns[i], ns[i+1]), c04Name(ns[i+2], ns[i+3])); err != nil {
+			return "ERR"
+		}
+	}
+	cell := c04Name(ns[0], ns[1])
+	if err := f.SetCellValue("Sheet1", cell, "v"); err != nil {
+		return "ERR"
+	}
+	b2i := func(b bool) int {
+		if b {
+			return 1
+		}
+		return 0
+	}
+	v1, _ := f.GetCellValue("Sheet1", cell)
+	m, err := f.GetMergeCells("Sheet1")
+	if err != nil {
+		return "ERR"
+	}
+	v2, _ := f.GetCellValue("Sheet1", cell)
+	return fmt.Sprintf("ok %d %d %d", b2i(v1 == "v"), len(m), b2i(v2 == "v"))
+}
+
+// mergeCases: the witness of the open finding plus generated range lists
+func c04MergeCases(r *Run, rng *Rng, n int) {
+	s := &c04State{r: r}
+	run := func(line string) {
+		s.replay = nil
+		ln, res := s.op(line)
+		r.Case(line, true)
+		r.Stat("mergewit")
+		var b, k, a int
+		if _, err := fmt.Sscanf(res, "ok %d %d %d", &b, &k, &a); err != nil {
+			r.Fail("agree:mergewit-error", "GetMergeCells scenario fails: "+res, ln, line)
+			return
+		}
+		if b != a {
+			r.Fail("purity:obs:GetMergeCells:overlapping-merges", "GetCellValue of a cell outside every merged range answers differently after GetMergeCells (overlapping merged ranges are normalised in place): "+line+" => "+res, ln, line)
+		}
+	}
+	run("mergewit 5 7 4 8 6 10 2 7 4 9") // E7; D8:F10, B7:D9
+	for i := 0; i < n; i++ {
+		k := rng.Range(1, 4)
+		var rects [][4]int
+		for j := 0; j < k; j++ {
+			c1, r1 := rng.Range(1, 7), rng.Range(1, 7)
+			rects = append(rects, [4]int{c1, r1, c1 + rng.Range(0, 3), r1 + rng.Range(0, 3)})
+		}
+		c, ro := 0, 0
+		for try := 0; try < 50 && c == 0; try++ {
+			x, y := rng.Range(1, 10), rng.Range(1, 10)
+			in := false
+			for _, q := range rects {
+				if q[0] <= x && x <= q[2] && q[1] <= y && y <= q[3] {
+					in = true
+				}
+			}
+			if !in {
+				c, ro = x, y
+			}
+		}
+		if c == 0 {
+			continue
+		}
+		line := fmt.Sprintf("mergewit %d %d", c, ro)
+		for _, q := range rects {
+			line += fmt.Sprintf(" %d %d %d %d", q[0], q[1], q[2], q[3])
+		}
+		run(line)
+	}
 }
